@@ -465,7 +465,9 @@ class SuperSpeedStreamInEndpoint(Elaboratable):
                         # for us in our "write buffer", which we've been filling in the background.
                         # If this is the case, we'll flip which buffer we're working with, and then
                         # ready ourselves for transmit.
-                        packet_completing = in_stream.valid & (write_fill_count + 4 >= self._max_packet_size)
+                        # (A packet also completes when the word we're accepting right now ends the stream.)
+                        packet_completing = in_stream.valid & \
+                            ((write_fill_count + 4 >= self._max_packet_size) | in_stream.last)
                         with m.Elif(~in_stream.ready | packet_completing):
                             m.d.comb += [
                                 advance_sequence   .eq(1),
